@@ -39,7 +39,7 @@ def r1(p, rep):
         return t.startswith(f"isinstance({bparam},") and t.split(",", 1)[1].strip().startswith("str")
 
     def is_stack(t):
-        return "use_stack" in t and "len(" in t
+        return "use_stack" in t and ("len(" in t or t.endswith("use_stack"))
 
     found = set()
     for n in walk_no_nested(f.node):
@@ -109,16 +109,35 @@ def r2(p, rep):
     # api: raise_on_import_failure dominates every use of the resolved backend
     g = p.func("_api_withoutbackend.inner", "frontend.api")
     cfgg = CFG(g.node)
-    sel = [n for n in walk_no_nested(g.node) if isinstance(n, ast.Assign) and isinstance(n.value, ast.Call) and norm(n.value.func).endswith("registry.get")]
-    chk = [n for n in walk_no_nested(g.node) if isinstance(n, ast.Expr) and isinstance(n.value, ast.Call) and norm(n.value.func).endswith(".raise_on_import_failure")]
-    if not sel or not chk:
-        rep.violation("C11.R2", f"{g.qualname}:raise_on_import_failure", g.loc, "the selected backend is never checked for a failed import before it is used")
+
+    def selects(fn):
+        """assignments `b = registry.get(...)` in fn"""
+        return [n for n in walk_no_nested(fn.node) if isinstance(n, ast.Assign) and isinstance(n.value, ast.Call) and norm(n.value.func).endswith("registry.get")]
+
+    def checked_in(fn, sel):
+        """does `<b>.raise_on_import_failure()` dominate every later use of b in fn?  returns (ok, n_uses, bad_line)"""
+        c = CFG(fn.node)
+        bname = norm(sel.targets[0])
+        chk = [n for n in walk_no_nested(fn.node) if isinstance(n, ast.Expr) and isinstance(n.value, ast.Call) and norm(n.value.func) == f"{bname}.raise_on_import_failure"]
+        if not chk:
+            return False, 0, None
+        cnode = c.node_for(chk[0])
+        uses = [n for n in walk_no_nested(fn.node) if isinstance(n, ast.Name) and n.id == bname and isinstance(n.ctx, ast.Load) and n.lineno > sel.lineno and not any(x is n for x in ast.walk(chk[0]))]
+        bad = [u for u in uses if c.node_for(u) is not None and not c.dominates(cnode, c.node_for(u))]
+        return not bad, len(uses), (bad[0].lineno if bad else None)
+
+    sel = selects(g)
+    if sel:
+        ok, n_uses, bad = checked_in(g, sel[0])
+        rep.add("C11.R2", f"{g.qualname}:raise_on_import_failure", f"{g.module.rel}:{sel[0].lineno}", ok, f"`raise_on_import_failure()` dominates all {n_uses} later uses of the selected backend" if ok else (f"the backend is used at line {bad} before / without the import-failure check" if bad else "the selected backend is never checked for a failed import before it is used"))
     else:
-        bname = norm(sel[0].targets[0])
-        cnode = cfgg.node_for(chk[0])
-        uses = [n for n in walk_no_nested(g.node) if isinstance(n, ast.Name) and n.id == bname and isinstance(n.ctx, ast.Load) and n.lineno > sel[0].lineno and not any(x is n for x in ast.walk(chk[0]))]
-        bad = [u for u in uses if cfgg.node_for(u) is not None and not cfgg.dominates(cnode, cfgg.node_for(u))]
-        rep.add("C11.R2", f"{g.qualname}:raise_on_import_failure", f"{g.module.rel}:{chk[0].lineno}", not bad, f"`{bname}.raise_on_import_failure()` dominates all {len(uses)} later uses of the backend" if not bad else f"the backend is used at line {bad[0].lineno} before / without the import-failure check")
+        # selection extracted into a helper that returns the checked backend
+        helpers = [h for h in common.with_helpers(p, g)[1:] if selects(h)]
+        if not helpers:
+            rep.violation("C11.R2", f"{g.qualname}:raise_on_import_failure", g.loc, "the api wrapper does not resolve its backend through registry.get(...)")
+        for h in helpers:
+            ok, n_uses, bad = checked_in(h, selects(h)[0])
+            rep.add("C11.R2", f"{g.qualname}:raise_on_import_failure", h.loc, ok, f"backend selection and `raise_on_import_failure()` live in helper {h.name}; the check dominates its return" if ok else f"helper {h.name} returns the selected backend without the import-failure check")
 
 
 def backend_tables(p):
@@ -215,17 +234,19 @@ def r4(p, rep):
             rep.violation("C11.R4", f"{f.qualname}:raises", f.loc, "no raise left: failures fall through")
         for k, r in kinds:
             rep.add("C11.R4", f"{f.qualname}:raise:{k[1]}:{c03._raise_ctx(r)}", f"{f.module.rel}:{r.lineno}", k in allowed, f"raises {k[1]}" if k in allowed else f"raises {k} (documented: {sorted(a[1] for a in allowed)})")
-    # zero and several candidates both raise BackendResolutionError
+    # zero and several candidates both raise BackendResolutionError; exactly one is returned
     f = p.func("BackendRegistryState._get", "frontend.backend")
     cfg = CFG(f.node)
+    cands = [n for n in walk_no_nested(f.node) if isinstance(n, ast.Assign) and isinstance(n.value, ast.Call) and norm(n.value.func).endswith("_get_by_tensors") and isinstance(n.targets[0], ast.Name)]
+    if not cands:
+        raise AnalysisError("unrecognised idiom: _get does not bind the result of _get_by_tensors to a name")
+    v = cands[0].targets[0].id
     res = [r for r in walk_no_nested(f.node) if isinstance(r, ast.Raise) and common.raised_class(p, f.module, r, f.node) == ("errors", "BackendResolutionError")]
-    conds = set()
-    for r in res:
-        for t, pol in _facts(cfg, cfg.node_for(r)):
-            if "len(backends)" in t:
-                conds.add((t, pol))
-    ok = ("len(backends) > 1", True) in conds and ("len(backends) == 1", False) in conds and len(res) >= 2
-    rep.add("C11.R4", f"{f.qualname}:zero-or-many", f.loc, ok, "both `several candidates` and `no candidate` raise BackendResolutionError; exactly one is returned" if ok else f"candidate-count handling {sorted(conds)}")
+    bounds = [common.len_bounds(cfg.guards(cfg.node_for(r)), v) for r in res]
+    rets = [r for r in walk_no_nested(f.node) if isinstance(r, ast.Return) and r.value is not None and norm(r.value) == f"{v}[0]"]
+    rb = [common.len_bounds(cfg.guards(cfg.node_for(r)), v) for r in rets]
+    ok = any(hi == 0 for lo, hi in bounds) and any(lo >= 2 for lo, hi in bounds) and bool(rb) and all(b == (1, 1) for b in rb)
+    rep.add("C11.R4", f"{f.qualname}:zero-or-many", f.loc, ok, f"no candidate and several candidates raise BackendResolutionError; `{v}[0]` is returned only when len({v}) == 1" if ok else f"candidate-count handling: raises under len bounds {bounds}, returns {v}[0] under {rb}")
 
 
 def r5(p, rep):
@@ -237,9 +258,11 @@ def r5(p, rep):
         raise AnalysisError("unrecognised idiom: no memo write in _get_by_tensors")
     for w in writes:
         facts = _facts(cfg, cfg.node_for(w))
-        ok = ("len(backends) == 1", True) in facts
+        val = w.value
+        vname = norm(val.value) if isinstance(val, ast.Subscript) else None
+        ok = vname is not None and common.len_bounds(cfg.guards(cfg.node_for(w)), vname) == (1, 1)
         rep.add("C11.R5", f"{f.qualname}:memo-write", f"{f.module.rel}:{w.lineno}", ok, "only a unique answer is memoised" if ok else f"the memo is written under {facts}: an ambiguous or empty answer would be frozen for later lookups")
-        ok2 = norm(w.value) == "backends[0]"
+        ok2 = isinstance(val, ast.Subscript) and isinstance(val.slice, ast.Constant) and val.slice.value == 0
         rep.add("C11.R5", f"{f.qualname}:memo-value", f"{f.module.rel}:{w.lineno}", ok2, f"memoised value {norm(w.value)}")
     # priority filter: max + ==
     filt = [n for n in walk_no_nested(f.node) if isinstance(n, ast.Assign) and isinstance(n.value, ast.ListComp) and "priority" in norm(n.value)]
@@ -251,7 +274,19 @@ def r5(p, rep):
     ok = any(any(isinstance(x, ast.Call) and isinstance(x.func, ast.Attribute) and x.func.attr in ("update", "extend", "add") for x in ast.walk(l)) and not any(isinstance(x, (ast.Break, ast.Return)) for x in ast.walk(l)) for l in loops)
     rep.add("C11.R5", f"{f.qualname}:union-over-tensors", f.loc, ok, "candidates are collected from every tensor argument (no early exit)" if ok else "candidate collection stops early or ignores some tensor arguments: the choice depends on argument order")
     # scalars alone select numpy
-    sc = [n for n in walk_no_nested(f.node) if isinstance(n, ast.If) and "all(" in norm(n.test) and "float" in norm(n.test)]
+    def _all_isinstance(t):
+        return (
+            isinstance(t, ast.Call)
+            and isinstance(t.func, ast.Name)
+            and t.func.id == "all"
+            and t.args
+            and isinstance(t.args[0], ast.GeneratorExp)
+            and isinstance(t.args[0].elt, ast.Call)
+            and norm(t.args[0].elt.func) == "isinstance"
+            and norm(t.args[0].generators[0].iter) == f.params[1]
+        )
+
+    sc = [n for n in walk_no_nested(f.node) if isinstance(n, ast.If) and _all_isinstance(n.test)]
     ok = bool(sc) and any('_get_by_name("numpy")' in norm(s).replace("'", '"') for s in sc[0].body)
     rep.add("C11.R5", f"{f.qualname}:scalars-select-numpy", f.loc, ok, "Python/numpy scalars alone select the numpy backend by name")
 
@@ -259,18 +294,19 @@ def r5(p, rep):
 def r6(p, rep):
     rep.rule("C11.R6", "late imports are detected by membership in the seen-set", "T-DOM [S]", floor=1)
     f = p.func("BackendRegistryState._check_new_imports", "frontend.backend")
-    gates = [n for n in walk_no_nested(f.node) if isinstance(n, ast.If) and "sys.modules" in norm(n.test)]
-    if not gates:
-        raise AnalysisError("unrecognised idiom: _check_new_imports has no test over sys.modules")
-    for g in gates:
-        t = norm(g.test)
-        by_len = "len(" in t
-        by_membership = any(isinstance(x, ast.Compare) and isinstance(x.ops[0], (ast.NotIn, ast.In)) and "seen_module_names" in norm(x.comparators[0]) for x in ast.walk(g.test))
-        ok = by_membership and not by_len
-        rep.add("C11.R6", f"{f.qualname}:new-module-test", f"{f.module.rel}:{g.lineno}", ok, "a module is new iff its name is not in seen_module_names" if ok else f"`{t[:80]}` decides by counting: the seen-set only grows, so after any module leaves sys.modules a freshly imported framework is never noticed and its lazily registered backends stay unavailable")
+    # how is "a module is new" decided?  accepted: membership `name not in self.seen_module_names` while iterating sys.modules
+    member = [x for x in ast.walk(f.node) if isinstance(x, ast.Compare) and isinstance(x.ops[0], (ast.NotIn, ast.In)) and "seen_module_names" in norm(x.comparators[0])]
+    iterates = [x for x in ast.walk(f.node) if isinstance(x, (ast.comprehension, ast.For)) and "sys.modules" in norm(x.iter)]
+    by_len = [x for x in ast.walk(f.node) if isinstance(x, ast.Compare) and "len(" in norm(x) and ("sys.modules" in norm(x) or "seen_module_names" in norm(x))]
+    if not member and not by_len:
+        raise AnalysisError("unrecognised idiom: _check_new_imports neither tests membership in seen_module_names nor compares sizes")
+    ok = bool(member) and bool(iterates) and not by_len
+    site = f"{f.module.rel}:{(member[0].lineno if member else by_len[0].lineno)}"
+    rep.add("C11.R6", f"{f.qualname}:new-module-test", site, ok, "a module is new iff its name is not in seen_module_names (checked for every entry of sys.modules)" if ok else f"`{norm(by_len[0])[:80] if by_len else '?'}` decides by counting: the seen-set only grows, so after any module leaves sys.modules a freshly imported framework is never noticed and its lazily registered backends stay unavailable")
     # every new module is recorded and its factories run exactly once (entry deleted)
-    adds = [n for n in walk_no_nested(f.node) if isinstance(n, ast.Call) and norm(n.func).endswith("seen_module_names.add")]
-    dels = [n for n in walk_no_nested(f.node) if isinstance(n, ast.Delete) and "uninitialized_backends" in norm(n.targets[0])]
+    fs = common.with_helpers(p, f)
+    adds = [n for n in common.nodes_of(fs) if isinstance(n, ast.Call) and (norm(n.func).endswith("seen_module_names.add") or norm(n.func).endswith("seen_module_names.update"))]
+    dels = [n for n in common.nodes_of(fs) if (isinstance(n, ast.Delete) and "uninitialized_backends" in norm(n.targets[0])) or (isinstance(n, ast.Call) and norm(n.func).endswith("uninitialized_backends.pop"))]
     rep.add("C11.R6", f"{f.qualname}:record-and-consume", f.loc, bool(adds) and bool(dels), "each new module is recorded as seen and its pending factories are consumed")
 
 
